@@ -75,7 +75,7 @@ Proof.
     + (* body *)
       intros D inp args locs rest r H Hr f' Hle. fuel_step f'.
       destruct rest as [|s more]; simpl in *; [assumption|].
-      destruct s as [e|e h].
+      destruct s as [e|e h|e c].
       * destruct (sp_expr f D inp args locs e) as [v| |] eqn:E1.
         -- rewrite (IHe _ _ _ _ _ _ E1 ltac:(discriminate) f' Hle). eapply IHb; eauto.
         -- now rewrite (IHe _ _ _ _ _ _ E1 ltac:(discriminate) f' Hle).
@@ -86,6 +86,18 @@ Proof.
            destruct (catchable k); [|assumption].
            destruct (sp_expr f D inp args locs h) as [v| |] eqn:E2.
            ++ rewrite (IHe _ _ _ _ _ _ E2 ltac:(discriminate) f' Hle). eapply IHb; eauto.
+           ++ now rewrite (IHe _ _ _ _ _ _ E2 ltac:(discriminate) f' Hle).
+           ++ congruence.
+        -- congruence.
+      * destruct (sp_expr f D inp args locs e) as [v|k|] eqn:E1.
+        -- rewrite (IHe _ _ _ _ _ _ E1 ltac:(discriminate) f' Hle).
+           destruct (sp_expr f D inp args locs c) as [w|k2|] eqn:E2.
+           ++ rewrite (IHe _ _ _ _ _ _ E2 ltac:(discriminate) f' Hle). eapply IHb; eauto.
+           ++ now rewrite (IHe _ _ _ _ _ _ E2 ltac:(discriminate) f' Hle).
+           ++ congruence.
+        -- rewrite (IHe _ _ _ _ _ _ E1 ltac:(discriminate) f' Hle).
+           destruct (sp_expr f D inp args locs c) as [w|k2|] eqn:E2.
+           ++ now rewrite (IHe _ _ _ _ _ _ E2 ltac:(discriminate) f' Hle).
            ++ now rewrite (IHe _ _ _ _ _ _ E2 ltac:(discriminate) f' Hle).
            ++ congruence.
         -- congruence.
